@@ -234,6 +234,8 @@ def compare_case(case, r, answers, dis, brief):
         diff('freq_coarse differs', len(r['coarse']), len(coarse))
     if comp != r['compute']:
         diff('freq_compute differs', len(r['compute']), len(comp))
+    if coarse != r['coarse'] or comp != r['compute']:
+        return 'bookkeeping-differs'      # the data no longer belong to the model's frequencies
     # interpolate
     ok = answers[6].lstrip('(').startswith('1')
     if not ok:
@@ -319,7 +321,13 @@ def correspondence_fourier(ctx, dis, hist):
             dis.append({'what': 'Coq model: unexpected number of answers', 'case': brief,
                         'impl': 7, 'model': len(answers)})
             continue
-        label = compare_case(case, r, answers, dis, brief)
+        try:
+            label = compare_case(case, r, answers, dis, brief)
+        except Exception as e:      # noqa
+            dis.append({'what': 'comparison of model and implementation failed: '
+                                + type(e).__name__ + ': ' + str(e)[:200],
+                        'case': brief, 'impl': '', 'model': ''})
+            label = 'error'
         groups = (any(r['m_extrap']), any(r['m_interp']),
                   any(not a and not b for a, b in zip(r['m_extrap'], r['m_interp'])))
         edge = case['fmin'] in r['req'] or case['fmax'] in r['req']
